@@ -393,3 +393,146 @@ func readUint(b []byte) (uint64, int, error) {
 	}
 	return 0, 0, fmt.Errorf("unsupported CBOR uint: %x", b)
 }
+
+// ---------------------------------------------------------------------------
+// Decoding what the implementation put on the wire in the handshake.
+
+func cborHead(b []byte) (major byte, val uint64, n int, err error) {
+	if len(b) == 0 {
+		return 0, 0, 0, errors.New("cbor: truncated")
+	}
+	major, ai := b[0]>>5, b[0]&0x1f
+	switch {
+	case ai < 24:
+		return major, uint64(ai), 1, nil
+	case ai == 24 && len(b) >= 2:
+		return major, uint64(b[1]), 2, nil
+	case ai == 25 && len(b) >= 3:
+		return major, uint64(b[1])<<8 | uint64(b[2]), 3, nil
+	case ai == 26 && len(b) >= 5:
+		return major, uint64(b[1])<<24 | uint64(b[2])<<16 | uint64(b[3])<<8 | uint64(b[4]), 5, nil
+	case ai == 27 && len(b) >= 9:
+		var v uint64
+		for i := 1; i <= 8; i++ {
+			v = v<<8 | uint64(b[i])
+		}
+		return major, v, 9, nil
+	}
+	return 0, 0, 0, fmt.Errorf("cbor: unsupported head %#x", b[0])
+}
+
+// cborSkip returns the length of the first (definite-length) item of b.
+func cborSkip(b []byte) (int, error) {
+	major, val, n, err := cborHead(b)
+	if err != nil {
+		return 0, err
+	}
+	switch major {
+	case 0, 1, 7:
+		return n, nil
+	case 2, 3:
+		if len(b) < n+int(val) {
+			return 0, errors.New("cbor: truncated string")
+		}
+		return n + int(val), nil
+	case 4, 5:
+		cnt := int(val)
+		if major == 5 {
+			cnt *= 2
+		}
+		for i := 0; i < cnt; i++ {
+			k, err := cborSkip(b[n:])
+			if err != nil {
+				return 0, err
+			}
+			n += k
+		}
+		return n, nil
+	case 6:
+		k, err := cborSkip(b[n:])
+		return n + k, err
+	}
+	return 0, errors.New("cbor: unsupported")
+}
+
+// ParseProposal decodes msgProposeVersions = [0, {version => versionData}] into the raw
+// version data per version.
+func ParseProposal(b []byte) (map[uint16][]byte, error) {
+	major, val, n, err := cborHead(b)
+	if err != nil || major != 4 || val != 2 {
+		return nil, fmt.Errorf("not a proposal: %x", b)
+	}
+	_, tag, k, err := cborHead(b[n:])
+	if err != nil || tag != 0 {
+		return nil, fmt.Errorf("not a proposal: %x", b)
+	}
+	n += k
+	major, cnt, k, err := cborHead(b[n:])
+	if err != nil || major != 5 {
+		return nil, fmt.Errorf("proposal without a map: %x", b)
+	}
+	n += k
+	out := map[uint16][]byte{}
+	for i := 0; i < int(cnt); i++ {
+		_, ver, k, err := cborHead(b[n:])
+		if err != nil {
+			return nil, err
+		}
+		n += k
+		l, err := cborSkip(b[n:])
+		if err != nil {
+			return nil, err
+		}
+		out[uint16(ver)] = b[n : n+l]
+		n += l
+	}
+	return out, nil
+}
+
+// ParseAccept decodes msgAcceptVersion = [1, version, versionData].
+func ParseAccept(b []byte) (uint16, []byte, error) {
+	major, val, n, err := cborHead(b)
+	if err != nil || major != 4 || val != 3 {
+		return 0, nil, fmt.Errorf("not an accept: %x", b)
+	}
+	_, tag, k, err := cborHead(b[n:])
+	if err != nil || tag != 1 {
+		return 0, nil, fmt.Errorf("not an accept: %x", b)
+	}
+	n += k
+	_, ver, k, err := cborHead(b[n:])
+	if err != nil {
+		return 0, nil, err
+	}
+	n += k
+	l, err := cborSkip(b[n:])
+	if err != nil {
+		return 0, nil, err
+	}
+	return uint16(ver), b[n : n+l], nil
+}
+
+// AdvertisedDuplex reads the diffusion mode out of node-to-node version data
+// [magic, initiatorOnly, ...]: true = InitiatorAndResponder (initiatorOnly = false).
+// Node-to-client version data (a bare magic or [magic, query]) carries no diffusion mode:
+// has = false.
+func AdvertisedDuplex(data []byte, nodeToNode bool) (duplex bool, has bool) {
+	if !nodeToNode {
+		return false, false
+	}
+	major, val, n, err := cborHead(data)
+	if err != nil || major != 4 || val < 2 {
+		return false, false
+	}
+	k, err := cborSkip(data[n:])
+	if err != nil || len(data) <= n+k {
+		return false, false
+	}
+	switch data[n+k] {
+	case 0xf4:
+		return true, true
+	case 0xf5:
+		return false, true
+	}
+	return false, false
+}
